@@ -68,12 +68,45 @@ def _elementwise(f_sym, f_float):
     return g
 
 
+def _log_num(x, *a, **k):
+    """log of a small Python integer stays exact (symbolic log(n))."""
+    if isinstance(x, (int, _np.integer)) and not isinstance(x, bool) \
+            and 0 < x < 10**6:
+        return Sym(T.fn('log', T.const(int(x))))
+    return _np.log(x, *a, **k)
+
+
 def _sqrt_num(x, *a, **k):
     """sqrt of a small Python integer stays exact (symbolic sqrt(2)), so that
     chi's np.sqrt(2) and the reference's sqrt(2) are the same real number."""
     if isinstance(x, int) and not isinstance(x, bool) and 0 <= x < 1000:
         return Sym(T.fn('sqrt', T.const(x)))
     return _np.sqrt(x, *a, **k)
+
+
+def _predicate(f_sym, f_np, f_py):
+    """isnan / isinf / isfinite: a symbolic value is a finite real; the
+    result is a genuine bool (array), so that ``~mask`` and mask indexing
+    behave as with float arrays."""
+    def one(v):
+        if isinstance(v, Sym):
+            return f_sym(v)
+        if v is UNINIT:
+            return f_sym(v)
+        return bool(f_py(v))
+
+    def g(x, *a, **k):
+        if isinstance(x, Sym) or x is UNINIT:
+            return one(x)
+        if isinstance(x, _np.ndarray) and x.dtype == object:
+            out = _np.empty(x.shape, dtype=bool)
+            for idx in _np.ndindex(*x.shape):
+                out[idx] = one(x[idx])
+            return out
+        if isinstance(x, (list, tuple)) and _has_sym(x):
+            return g(_np.asarray(x, dtype=object))
+        return f_np(x, *a, **k)
+    return g
 
 
 class SymArray(_np.ndarray):
@@ -110,13 +143,14 @@ class NP(object):
         self.pi = Sym(T.PI) if pi_symbolic else _np.pi
         if random is not None:
             self.random = random
-        self.log = _elementwise(lambda s: s.log(), _np.log)
+        self.log = _elementwise(lambda s: s.log(), _log_num)
         self.exp = _elementwise(lambda s: s.exp(), _np.exp)
         self.sqrt = _elementwise(lambda s: s.sqrt(), _sqrt_num)
         self.abs = self.absolute = _elementwise(lambda s: abs(s), _np.abs)
-        self.isnan = _elementwise(lambda s: False, _np.isnan)
-        self.isinf = _elementwise(lambda s: False, _np.isinf)
-        self.isfinite = _elementwise(lambda s: True, _np.isfinite)
+        self.isnan = _predicate(lambda s: False, _np.isnan, math.isnan)
+        self.isinf = _predicate(lambda s: False, _np.isinf, math.isinf)
+        self.isfinite = _predicate(lambda s: True, _np.isfinite,
+                                   math.isfinite)
 
     def __getattr__(self, name):
         return getattr(_np, name)
